@@ -390,7 +390,15 @@ impl World for DevFull {
         let mut out = Outcome::new();
         out.evaluations = 1;
         out.steps = 1;
-        if !std::path::Path::new("/dev/full").exists() {
+        // the cases of this batch share one device node: one at a time
+        static DEV_FULL: std::sync::Mutex<()> = std::sync::Mutex::new(());
+        let _one_at_a_time = DEV_FULL.lock().unwrap_or_else(|e| e.into_inner());
+        fn is_full_device() -> bool {
+            use std::os::unix::fs::{FileTypeExt, MetadataExt};
+            std::fs::metadata("/dev/full").map(|m| m.file_type().is_char_device() && m.rdev() == 0x107).unwrap_or(false)
+        }
+        if !is_full_device() {
+            bump(&mut out.counters, "probe:/dev/full is not the kernel's full device here - case skipped", 1);
             return out;
         }
         let p = &case.program;
@@ -411,6 +419,15 @@ impl World for DevFull {
         fp.str(&format!("{:?}", p.root.len()));
         fp.u64(real.trace.len() as u64);
         out.fingerprints.push(fp.0);
+        if !is_full_device() {
+            // the export did not write into the target, it put something else in its place
+            // (write-then-rename): ENOSPC cannot be observed this way and nothing is claimed -
+            // but the device node has to be there for the next case (and for everybody else)
+            let _ = std::fs::remove_file("/dev/full");
+            let _ = std::process::Command::new("mknod").args(["-m", "666", "/dev/full", "c", "1", "7"]).status();
+            bump(&mut out.counters, "probe:export replaced /dev/full instead of writing into it (no claim; device node restored)", 1);
+            return out;
+        }
         if r.is_ok() {
             out.violation = Some((
                 Violation::new(format!("export-acknowledged-on-full-device format={}", case.format), format!("{} export to /dev/full returned Ok(())", case.format)),
